@@ -15,6 +15,9 @@ import time
 VERIF = os.path.dirname(os.path.dirname(os.path.abspath(__file__)))
 REPO = os.environ.get("VERIF_REPO", "/repo")
 CACHE = os.path.join(VERIF, ".cache")
+# where evidence/ and replays/ are written; redirected while a seeded change is being evaluated so that the committed
+# evidence always comes from runs against /repo itself
+OUT = os.environ.get("VERIF_OUT", VERIF)
 PYENV = "/root/.pyenv/versions"
 
 FULL = {
@@ -284,7 +287,7 @@ def run_check(mod, tier, replay=None):
     pid = mod.ID
     seed = int(os.environ.get("VERIF_SEED", "0") or 0)
     t0 = time.time()
-    os.makedirs(os.path.join(VERIF, "evidence"), exist_ok=True)
+    os.makedirs(os.path.join(OUT, "evidence"), exist_ok=True)
     work = os.path.join(CACHE, "work", "%s-%d" % (pid, os.getpid()))
     os.makedirs(work, exist_ok=True)
     try:
@@ -361,7 +364,7 @@ def _finish(mod, tier, seed, plan, hosts, results, harness_fail, wall):
     lines = []
     for s in sorted(matched):
         lines.append("KNOWN-FINDING: property=%s %s [%s] (x%d this run)" % (pid, known[s].get("what", ""), s, matched[s]["n"]))
-    rdir = os.path.join(VERIF, "replays", pid)
+    rdir = os.path.join(OUT, "replays", pid)
     nviol = 0
     for s in sorted(unlisted):
         os.makedirs(rdir, exist_ok=True)
@@ -401,7 +404,7 @@ def _finish(mod, tier, seed, plan, hosts, results, harness_fail, wall):
         "assumptions": list(getattr(mod, "ASSUMPTIONS", [])), "wall_s": round(wall, 2),
         "violations": len(unlisted) + len(harness_fail),
     }
-    with open(os.path.join(VERIF, "evidence", "%s.json" % pid), "w") as f:
+    with open(os.path.join(OUT, "evidence", "%s.json" % pid), "w") as f:
         json.dump(ev, f, indent=1, sort_keys=True)
     bad = bool(unlisted) or bool(harness_fail) or (canary[1] and canary[0] != canary[1])
     for ln in lines:
